@@ -13,7 +13,12 @@ EXTENDS PacketAPI, Json, SequencesExt
 CONSTANTS T,        \* packet type 1..15
           DEPTH,    \* number of setter calls per history
           SLICE, SLICES,  \* this process emits the leaves whose first call index % SLICES = SLICE
-          WRITES          \* TRUE: histories may contain WriteTo between calls
+          WRITES,         \* TRUE: histories may contain WriteTo between calls
+          START,          \* "new": the history starts on the constructor's packet; "full": on a packet on which every
+                          \*   setter and adder of the type was called once with a non-zero value; "decoded": on the packet
+                          \*   ReadPacket returns for the frame of that full packet
+          PRE             \* "none" | "write" | "diag": a read-only operation between that set-up and the history, so
+                          \*   that whatever the library computed for WriteTo / String is there when the calls arrive
 
 VARIABLES hist, first
 
@@ -60,6 +65,27 @@ Alphabet(t) ==
               ELSE {}
   IN plain \cup ups \cup spec
 
+(* the set-up of START = "full": every plain setter of the type with a non-zero value, then the adders and the calls *)
+(* with side conditions; the result is a packet inside the C01 / C02 domains carrying every field and property      *)
+NonZero(kind) ==
+  IF kind = "bool" THEN TRUE ELSE IF kind \in {"bit", "qos", "subid"} THEN 1 ELSE IF kind = "u8" THEN 128
+  ELSE IF kind = "u16" THEN 258 ELSE IF kind = "u32" THEN <<1, 2>> ELSE IF kind = "str" THEN Txt(3)
+  ELSE IF kind = "bin" THEN <<1, 2, 3>> ELSE 5
+FullCalls(t) ==
+  LET o == NewObs(t)
+      plain == SetToSeq({m \in DOMAIN PlainKey : PlainKey[m] \in DOMAIN o /\ PlainKey[m] \notin {"ProtocolName", "ProtocolVersion"}})
+      spec == IF t = 1 THEN << <<"SetUsername", <<Txt(2)>>>>, <<"SetPassword", <<<<9, 8>>>>>>, <<"SetCleanStart", <<TRUE>>>>, <<"SetWill", <<[h |-> 3]>>>> >>
+              ELSE IF t = 2 THEN << <<"SetSessionPresent", <<TRUE>>>> >>
+              ELSE IF t = 3 THEN << <<"AddSubscriptionID", <<<<0, 5>>>>>> >>
+              ELSE IF t = 8 THEN << <<"AddFilters", << <<Txt(2), 1>> >>>> >>
+              ELSE IF t = 10 THEN << <<"AddFilter", <<Txt(2)>>>> >>
+              ELSE IF t \in {9, 11} THEN << <<"AddReasonCode", <<1>>>> >>
+              ELSE <<>>
+  IN [i \in 1..Len(plain) |-> <<plain[i], <<NonZero(KeyKind[PlainKey[plain[i]]])>>>>]
+     \o (IF "UserProperties" \in DOMAIN o THEN << <<"AddUserProp", <<Txt(1), Txt(1)>>>> >> ELSE <<>>)
+     \o spec
+SetUp == IF START \in {"full", "decoded"} THEN FullCalls(T) ELSE <<>>
+
 Alpha == Alphabet(T)
 AlphaSeq == SetToSeq(Alpha)
 
@@ -76,7 +102,11 @@ WillPool ==
   @@ (3 :> [t |-> 3, o |-> [PubObs(1, Txt(1), <<7, 8>>) EXCEPT !["Retain"] = TRUE, !["ResponseTopic"] = Txt(2)]])
   @@ (4 :> [t |-> 3, o |-> [PubObs(2, Txt(2), <<9>>) EXCEPT !["UserProperties"] = << <<Txt(1), Txt(1)>> >>]])
 
-Init == /\ pool = (1 :> [t |-> T, o |-> NewObs(T)]) @@ (IF T = 1 THEN WillPool ELSE EmptyFn)
+RECURSIVE Fold(_, _)
+Fold(o, i) == IF i > Len(SetUp) THEN o
+              ELSE Fold(Apply(T, o, SetUp[i][1], SetUp[i][2], IF SetUp[i][1] = "SetWill" THEN WillPool[SetUp[i][2][1].h].o ELSE EmptyFn), i + 1)
+
+Init == /\ pool = (1 :> [t |-> T, o |-> Fold(NewObs(T), 1)]) @@ (IF T = 1 THEN WillPool ELSE EmptyFn)
         /\ hist = <<>> /\ first = 0
 
 Step(i) == /\ Call(1, AlphaSeq[i][1], AlphaSeq[i][2])
@@ -117,8 +147,16 @@ LastWriteWins ==
                  c.m \in DOMAIN PlainKey => pool[1].o[PlainKey[c.m]] = c.args[1]
 
 Program ==
-  [fam |-> "api", meta |-> [t |-> T, depth |-> DEPTH],
-   steps |-> (IF T = 1 THEN WillSetup ELSE <<>>) \o <<[op |-> "New", h |-> 1, type |-> TypeName(T)]>> \o hist
+  [fam |-> "api", meta |-> [t |-> T, depth |-> DEPTH, start |-> START, pre |-> PRE],
+   steps |-> (IF T = 1 THEN WillSetup ELSE <<>>)
+             \o (IF START = "decoded"       \* the same packet built on handle 5, written, and read back: the history runs on the DECODED packet
+                 THEN <<[op |-> "New", h |-> 5, type |-> TypeName(T)]>>
+                      \o [i \in 1..Len(SetUp) |-> [op |-> "Call", h |-> 5, m |-> SetUp[i][1], args |-> SetUp[i][2]]]
+                      \o <<[op |-> "WriteTo", h |-> 5], [op |-> "Stream", stream |-> 1, from |-> 5], [op |-> "ReadPacket", h |-> 1, stream |-> 1]>>
+                 ELSE <<[op |-> "New", h |-> 1, type |-> TypeName(T)]>>
+                      \o [i \in 1..Len(SetUp) |-> [op |-> "Call", h |-> 1, m |-> SetUp[i][1], args |-> SetUp[i][2]]])
+             \o (IF PRE = "write" THEN <<[op |-> "WriteTo", h |-> 1]>> ELSE IF PRE = "diag" THEN <<[op |-> "Diag", h |-> 1]>> ELSE <<>>)
+             \o hist
              \o << [op |-> "WriteTo", h |-> 1], [op |-> "Stream", stream |-> 1, from |-> 1],
                    [op |-> "ReadPacket", h |-> 9, stream |-> 1], [op |-> "Diag", h |-> 1] >>]
 
